@@ -7,7 +7,7 @@ git -C /repo archive HEAD src | tar -x -C $tmp/cur
 cp -r $tmp/base $tmp/mut
 (cd $tmp/mut && git apply $sd/patch.diff) || { echo "$id: patch does not apply to $base"; rm -rf $tmp; exit 2; }
 rc=0
-for f in $(grep '^+++ b/' $sd/patch.diff | sed 's#^+++ b/##'); do
+for f in $(grep '^+++ b/' $sd/patch.diff | sed 's#^+++ b/##' | cut -f1); do
   git merge-file $tmp/cur/$f $tmp/base/$f $tmp/mut/$f || { echo "$id: conflict in $f"; rc=1; }
 done
 if [ $rc = 0 ]; then
